@@ -295,7 +295,8 @@ def webvtt_never_absolute(c):
 def ref2(v):
     q = Decimal(v).quantize(Decimal("0.01"), rounding=ROUND_HALF_EVEN)
     s = format(q, "f")
-    return s.rstrip("0").rstrip(".") if "." in s else s
+    s = s.rstrip("0").rstrip(".") if "." in s else s
+    return "0" if s == "-0" else s          # (a difference that rounds to zero from below is printed as 0)
 
 
 def printed_ok(written, exact):
